@@ -35,7 +35,15 @@ pub struct C07Case {
     /// replace the first source by an endless one (cancel plans)
     pub endless: bool,
     pub decisions: Vec<u8>,
+    /// MTGraph only: (block position, first call, count) - the block answers `Pending` on
+    /// these calls, as a block waiting for something outside the graph does
+    #[serde(default)]
+    pub pending: Option<(u8, u8, u8)>,
 }
+
+/// No runner may ask for one uninterruptible sleep longer than this: the cancellation token
+/// is only looked at between sleeps (10 000 times the 1 ms the runner sleeps today).
+const MAX_SLEEP_NS: u64 = 10_000_000_000;
 
 #[derive(Default)]
 struct Outcome {
@@ -74,7 +82,8 @@ fn scenario(c: &C07Case, out: Arc<Mutex<Outcome>>) {
         let mask = if mask == 0 { 1 } else { mask };
         fails = (0..n).filter(|i| mask >> (i % 16) & 1 == 1).map(|i| (i, k.max(1) as u64)).collect();
     }
-    let blocks = wrap_multi(std::mem::take(&mut b.blocks), &names, &shared, &fails);
+    let pending = if c.mt { c.pending.map(|(p, at, cnt)| (p as usize % n, at.max(1) as u64, cnt as u64)) } else { None };
+    let blocks = wrap_pending(std::mem::take(&mut b.blocks), &names, &shared, &fails, pending);
     let order = add_order(r, n);
     let mut slots: Vec<Option<Box<dyn rustradio::block::Block + Send>>> = blocks.into_iter().map(Some).collect();
     let mut g: Box<dyn GraphRunner> = if c.mt { Box::new(MTGraph::new()) } else { Box::new(Graph::new()) };
@@ -128,8 +137,9 @@ impl Prop for C07 {
             1 => (prop_oneof![0u16..30, 0u16..400], any::<u8>(), 1u8..5, 0u8..6).prop_map(|(delay, pos, k, slow)| Fault::Both { delay, pos, k, slow }),
             1 => (prop_oneof![Just(0xffffu16), any::<u16>()], 1u8..4).prop_map(|(mask, k)| Fault::FailMany { mask, k }),
         ];
-        (recipe_strategy(tier.pick(12_000, 30_000) as u32), any::<bool>(), fault, any::<bool>(), decisions_strategy(tier.pick(400, 1500) as usize))
-            .prop_map(|(recipe, mt, fault, endless, decisions)| C07Case { recipe, mt, fault, endless, decisions })
+        let pending = prop_oneof![2 => Just(None), 1 => (any::<u8>(), 1u8..6, 1u8..30).prop_map(Some)];
+        (recipe_strategy(tier.pick(12_000, 30_000) as u32), any::<bool>(), fault, any::<bool>(), decisions_strategy(tier.pick(400, 1500) as usize), pending)
+            .prop_map(|(recipe, mt, fault, endless, decisions, pending)| C07Case { recipe, mt, fault, endless, decisions, pending })
             .boxed()
     }
     fn cases(&self, tier: Tier) -> u64 {
@@ -164,6 +174,20 @@ impl Prop for C07 {
                     format!("{runner}::run() panicked at {}: {} (fault {:?})", pi.loc, pi.msg, case.fault),
                 );
             }
+            return;
+        }
+        if case.mt && case.pending.is_some() {
+            ctx.class("a block answers Pending for a while");
+        }
+        if ex.max_sleep_ns > MAX_SLEEP_NS {
+            ctx.fail(
+                format!("C07/{runner}/uninterruptible-sleep"),
+                format!(
+                    "a runner thread asked for one sleep of {:.1} s (pending plan {:?}); the cancellation token is not looked at during a sleep, so cancellation is not bounded",
+                    ex.max_sleep_ns as f64 / 1e9,
+                    case.pending
+                ),
+            );
             return;
         }
         let Some(ret) = &o.returned else {
